@@ -33,6 +33,7 @@ def run_impl(sc):
                          get_mask_key=Keys(sc.get("keys") or []))
     obs = []
     rems = []
+    marks = [len(s.log)]
     for op in sc["ops"]:
         parts = op.split(":")
         try:
@@ -73,7 +74,10 @@ def run_impl(sc):
         except Exception as e:
             obs.append("raise:" + exn_class(e))
         rems.append(sum(len(e[1]) for e in s.inbox if e[0] == "D"))
+        marks.append(len(s.log))
     s.rems = rems
+    s.marks = marks
+    s.ws = ws
     io = []
     for e in s.log[s.hs_mark:]:
         if e[0] == "r":
